@@ -1082,6 +1082,29 @@ func main() {
 		}
 		fmt.Fprintf(&ft, "/-- statement indices in `invoke`: acquire, release (deferred?), handler call -/\ndef invokeOrder : Int × Int × Bool × Int := (%d, %d, %v, %d)\n\n", acq, rel, relDeferred, call)
 	}
+	// who parses inbound bytes: every caller of the shared envelope parser jmessages.parseJSON
+	{
+		var callers []string
+		for _, fn := range sortedFiles(root) {
+			for _, d := range root.files[fn].Decls {
+				fd, ok := d.(*ast.FuncDecl)
+				if !ok || fd.Body == nil {
+					continue
+				}
+				ast.Inspect(fd.Body, func(n ast.Node) bool {
+					if call, ok := n.(*ast.CallExpr); ok {
+						if sel, ok := call.Fun.(*ast.SelectorExpr); ok && sel.Sel.Name == "parseJSON" {
+							if _, isIdent := sel.X.(*ast.Ident); isIdent && src(sel.X) != "req" {
+								callers = append(callers, leanStr(fn+":"+fd.Name.Name))
+							}
+						}
+					}
+					return true
+				})
+			}
+		}
+		fmt.Fprintf(&ft, "/-- functions that decode an inbound record with the shared envelope parser `jmessages.parseJSON` -/\ndef envelopeParserCallers : List String := [%s]\n\n", strings.Join(callers, ", "))
+	}
 	ft.WriteString("end Jrpc.Gen.Facts\n")
 	write(*out, "Facts.lean", ft.String())
 }
